@@ -419,7 +419,6 @@ func nilIf(a, b *ssa.Store) *ssa.Store {
 	return a
 }
 
-
 // paramDeps: the parameters of fn that v depends on, through data and through the
 // conditions selecting phi inputs.
 func paramDeps(fn *ssa.Function, v ssa.Value) map[string]bool {
